@@ -80,7 +80,7 @@ func cmdCheck(args []string) {
 	work := filepath.Join(verifDir, "work", *prop)
 	os.RemoveAll(work)
 	os.MkdirAll(work, 0o755)
-	cfg := SolverCfg{WorkDir: work, TimeoutS: timeout, Seed: seed, Jobs: runtime.NumCPU()}
+	cfg := SolverCfg{WorkDir: work, TimeoutS: timeout, Seed: seed, Jobs: runtime.NumCPU(), Thorough: *tier == "thorough"}
 	res := runProperty(w, *prop, cfg)
 	code := report(w, res, *tier, seed, cfg, t0, *writeBaseline)
 	os.Exit(code)
@@ -123,9 +123,12 @@ func runProperty(w *World, prop string, cfg SolverCfg) *checkResult {
 		res.funcs = append(res.funcs, r)
 	}
 	res.synt = append(res.synt, w.checkFrames(prop)...)
+	res.synt = append(res.synt, w.checkImpls(prop)...)
+	res.synt = append(res.synt, w.checkRecursion(prop)...)
 	for _, r := range res.funcs {
 		res.all = append(res.all, r.Obls...)
 	}
+	batchAll(res.funcs, cfg)
 	dischargeAll(res.all, cfg)
 	res.all = append(res.all, res.synt...)
 	return res
@@ -362,3 +365,19 @@ func uniq(xs []string) []string {
 }
 
 func cmdSelftest(args []string) {}
+
+// batchAll runs the incremental batch pass, one solver process per function, in parallel.
+func batchAll(funcs []*FuncResult, cfg SolverCfg) {
+	sem := make(chan struct{}, cfg.Jobs)
+	done := make(chan struct{}, len(funcs))
+	for _, r := range funcs {
+		sem <- struct{}{}
+		go func(r *FuncResult) {
+			defer func() { <-sem; done <- struct{}{} }()
+			batchDischarge(r.Func, r.Obls, cfg)
+		}(r)
+	}
+	for range funcs {
+		<-done
+	}
+}
